@@ -367,9 +367,9 @@ func c08Constants() []octosql.Value {
 }
 
 func c08Gen(g *Gen, tier string, w *bufio.Writer) {
-	nenv, perEnv, nrows, nagg := 36, 70, 4, 500
+	nenv, perEnv, nrows, nagg, nqry := 36, 70, 4, 500, 120
 	if tier == "thorough" {
-		nenv, perEnv, nrows, nagg = 260, 110, 6, 6000
+		nenv, perEnv, nrows, nagg, nqry = 260, 110, 6, 6000, 2500
 	}
 	var names []string
 	for n := range c08Funcs() {
@@ -443,5 +443,9 @@ func c08Gen(g *Gen, tier string, w *bufio.Writer) {
 			sb.WriteString(" " + EncodeValue(c08GenValue(g, t, 2)))
 		}
 		w.WriteString(sb.String() + "\n")
+	}
+	// whole queries through the CLI (oracle only)
+	for i := 0; i < nqry; i++ {
+		w.WriteString(c08GenQryLine(g) + "\n")
 	}
 }
